@@ -1,7 +1,7 @@
 (* C11 — The two-phase-commit variable behaves as one copy and does not livelock.
    Only the property theorems, each closed by `exact <lemma>`, Print Assumptions beneath, and
    non-vacuity examples. Model: C11/Model.v (tied to distsys/resources/twopc.go by ./check C11).
-   `cfg tr` is the repaired code (commits 8fb21428, f44e10ca, 718e9920, 84372a69) over transport tr
+   `cfg tr` is the repaired code (commits 8fb21428, f44e10ca, 718e9920, 84372a69, 2512b762) over transport tr
    (Local = in-process handle, pointers preserved; Rpc = every delivered tla.Value re-allocated).
    Every theorem quantifies over: any number n of replicas, any initial value, every event list
    (= every interleaving of application calls, deliveries in any order, any number of times or never,
